@@ -23,6 +23,7 @@ import (
 type Param struct{ Name, Type string }
 
 type Clause struct {
+	Assumed          bool   // used by callers, not checked against the body
 	Kind             string // requires ensures ensures_panic invariant decreases assigns axiom lemma
 	Label            string
 	Text             string
@@ -69,7 +70,7 @@ type Contract struct {
 	Func                            string // RelString form, or "iface T.M"
 	IsIface                         bool
 	Requires, Ensures, EnsuresPanic []*Clause
-	EnsuresAbrupt                  []*Clause // hold whenever the function is left by a panic (own or propagated), after its deferred calls
+	EnsuresAbrupt                   []*Clause // hold whenever the function is left by a panic (own or propagated), after its deferred calls
 	Assigns                         []*Clause
 	Loops                           map[int]*LoopSpec
 	Flags                           map[string]bool
@@ -109,7 +110,7 @@ type ContractSet struct {
 
 var recoveredRe = regexp.MustCompile(`\brecovered\b`)
 
-var clauseRe = regexp.MustCompile(`^(requires|ensures_panic|ensures_abrupt|ensures|assigns|safe|pure|trusted|inline|uninterpreted|overflow-checked|wrap64|nopanic|maypanic|sweep-callers|ghost|capture|exitvars|timeout|props|replay_assume|replay|observe)\b\s*(.*)$`)
+var clauseRe = regexp.MustCompile(`^(requires|ensures_panic|ensures_abrupt_assumed|ensures_abrupt|ensures_assumed|ensures|assigns|safe|pure|trusted|inline|uninterpreted|overflow-checked|wrap64|nopanic|maypanic|script|sweep-callers|ghost|capture|exitvars|timeout|props|replay_assume|replay|observe)\b\s*(.*)$`)
 var labelRe = regexp.MustCompile(`\s+\[([A-Za-z0-9_:.#+\-]+)\]\s*$`)
 
 // parseContractFile reads one contract file.
@@ -341,6 +342,17 @@ func parseContractFile(cs *ContractSet, path, pkgDir string) {
 				cur.EnsuresPanic = append(cur.EnsuresPanic, mk("ensures_panic", m[2]))
 			case "ensures_abrupt":
 				cur.EnsuresAbrupt = append(cur.EnsuresAbrupt, mk("ensures_abrupt", m[2]))
+			case "ensures_assumed", "ensures_abrupt_assumed":
+				// a postcondition callers may use but the body is not checked against: an assumption
+				// about code this engine cannot follow (the compiled program the run loop executes)
+				c := mk(strings.TrimSuffix(m[1], "_assumed"), m[2])
+				c.Assumed = true
+				if m[1] == "ensures_assumed" {
+					cur.Ensures = append(cur.Ensures, c)
+				} else {
+					cur.EnsuresAbrupt = append(cur.EnsuresAbrupt, c)
+				}
+				cs.Scan = append(cs.Scan, fmt.Sprintf("assumed postcondition of %s: %s (%s:%d)", cur.Func, m[2], filepath.Base(path), ln+1))
 			case "assigns":
 				for _, d := range splitTop(m[2], ',') {
 					cur.Assigns = append(cur.Assigns, mk("assigns", strings.TrimSpace(d)))
@@ -844,15 +856,44 @@ func (cs *ContractSet) genOverlay(sp *srcPkg, contracts []*Contract, axioms []*C
 			cl.Expr = cl.Text
 			emit(cl, base, cl.ObsType, cl.Text)
 		}
+		// macros in frames: @NAME stands for a comma separated list of designators
+		var expanded []*Clause
+		for _, cl := range c.Assigns {
+			t := strings.TrimSpace(cl.Text)
+			if !strings.Contains(t, "@") || strings.HasPrefix(t, "nothing if ") {
+				expanded = append(expanded, cl)
+				continue
+			}
+			for i := 0; i < 4 && strings.Contains(t, "@"); i++ {
+				t = macroRe.ReplaceAllStringFunc(t, func(m string) string {
+					if v, ok := curMacros[m[1:]]; ok {
+						return v
+					}
+					return m
+				})
+			}
+			for _, d := range splitTop(t, ',') {
+				c2 := *cl
+				c2.Text = strings.TrimSpace(d)
+				expanded = append(expanded, &c2)
+			}
+		}
+		c.Assigns = expanded
 		for _, cl := range c.Assigns {
 			t := strings.TrimSpace(cl.Text)
 			switch {
-			case t == "all" || t == "nothing":
+			case t == "all" || t == "nothing" || t == "script":
+				// script: whatever script may do (everything except stable and jspreserved state), in
+				// addition to the listed designators
 				cl.Desig = t
 			case strings.HasPrefix(t, "nothing if "):
 				// conditional frame: nothing when the condition holds in the pre-state, anything otherwise
 				cl.Desig = "nothing-if"
-				emit(cl, base, "bool", rewriteImplies(strings.TrimPrefix(t, "nothing if ")))
+				ps := base
+				if recoveredRe.MatchString(t) {
+					ps = append(append([]Param{}, base...), Param{"recovered", "interface{}"})
+				}
+				emit(cl, ps, "bool", rewriteImplies(strings.TrimPrefix(t, "nothing if ")))
 			case strings.HasPrefix(t, "any(") && strings.HasSuffix(t, ")"):
 				cl.Desig = "any"
 				tf := t[4 : len(t)-1]
